@@ -5,10 +5,11 @@
    the 'handle loop places every entry within three rounds; the split context invariant carries across
    batches; every part is page aligned, its entries lie behind the blob's index page, inside the block,
    back to back; parts come out block by block and, inside a block, in increasing non-overlapping order.
-   Scan exactness (c07_scan_exact) is checked by the independent scanner of the correspondence on the
-   implementation's output, not yet proved in Coq: see DESIGN.md. *)
+   Scan exactness (c07_scan_exact, Disk/Scan.v + ScanProofs.v): for every physical block that received entries, what
+   BlockScanner and the regress check of BlockRecoverRunner read back - over whatever older content the block held
+   before - is exactly the list of entries the flusher wrote into it, in order, at the addresses given to the indexer. *)
 From Coq Require Import List NArith Bool Sorted.
-From FV Require Import Disk.Splitter Disk.SplitterProofs.
+From FV Require Import Disk.Splitter Disk.SplitterProofs Disk.Scan Disk.ScanProofs.
 Import ListNotations.
 Open Scope N_scope.
 
@@ -54,4 +55,52 @@ Example c07_nonvacuous :
   Some (mkCtx 0 36864 1,
         [([mkPart 0 0 4096 16384 [mkIdx 1 1 4096 100; mkIdx 2 2 8192 5000; mkIdx 3 3 16384 4096] 3], 1);
          ([mkPart 0 0 20480 32768 [mkIdx 4 4 20480 30000] 4; mkPart 1 0 4096 32768 [mkIdx 5 5 4096 30000] 1], 2)]).
+Proof. vm_compute. reflexivity. Qed.
+
+(* every physical block, over any sequence of batches, is a chain of blobs: a part continues the open blob right behind
+   its last entry or starts a new blob right behind the previous one *)
+Theorem c07_blocks_are_chained : forall B I, pa B -> pa I -> I < B -> 0 < icap I ->
+  forall bs c out, Forall (Forall (eok B I)) bs -> split_batches B I (init_ctx I) bs = Some (c, out) ->
+  forall g, wf I (0, []) (block_parts g (globalize 0 out)).
+Proof. intros B I HB HI HIB Hc bs c out. apply split_batches_chained; assumption. Qed.
+Print Assumptions c07_blocks_are_chained.
+
+(* scan exactness.  [nondec]: the block's entries carry non-decreasing sequences (one flusher fills a block, in
+   submission order; a reinserted entry keeps its original, older sequence and breaks this - finding F10);
+   [stale]: any content of the block's previous generation, all of it older *)
+Theorem c07_scan_exact : forall B I, pa B -> pa I -> I < B -> 0 < icap I ->
+  forall bs c out g stale,
+  Forall (Forall (eok B I)) bs -> split_batches B I (init_ctx I) bs = Some (c, out) ->
+  let ps := block_parts g (globalize 0 out) in
+  ps <> [] ->
+  nondec 0 (all_infos ps) ->
+  (forall o l i x, stale o = Some l -> In i l -> In x (all_infos ps) -> i_seq i < n_seq x) ->
+  recover_block B I (rd (written I ps) stale) = all_infos ps.
+Proof. intros B I HB HI HIB Hc bs c out g stale. apply scan_exact; assumption. Qed.
+Print Assumptions c07_scan_exact.
+
+(* a block that was reclaimed and not written again scans as empty (only its first page is zeroed) *)
+Theorem c07_clean_block_scans_empty : forall B I stale, stale 0 = None -> recover_block B I (rd (written I []) stale) = [].
+Proof.
+  intros B I stale H. unfold recover_block, scan_fuel, written. cbn [fold_left fst scan].
+  destruct (B <? 0 + I); [reflexivity|]. unfold rd. cbn [find_off]. rewrite H. reflexivity.
+Qed.
+Print Assumptions c07_clean_block_scans_empty.
+
+Example c07_scan_nonvacuous :
+  (* the two batches of c07_nonvacuous: block 0 holds two parts of one blob, block 1 one part; behind block 0's blob
+     lies an index page of the previous generation (sequence 0), which the regress check cuts off *)
+  let out := [([mkPart 0 0 4096 16384 [mkIdx 1 1 4096 100; mkIdx 2 2 8192 5000; mkIdx 3 3 16384 4096] 3], 1);
+              ([mkPart 0 0 20480 32768 [mkIdx 4 4 20480 30000] 4; mkPart 1 0 4096 32768 [mkIdx 5 5 4096 30000] 1], 2)] in
+  let stale := fun o => if o =? 53248 then Some [mkIdx 9 0 4096 100] else None in
+  recover_block 65536 4096 (rd (written 4096 (block_parts 0 (globalize 0 out))) stale) =
+    [mkInfo 1 1 4096 100; mkInfo 2 2 8192 5000; mkInfo 3 3 16384 4096; mkInfo 4 4 20480 30000] /\
+  recover_block 65536 4096 (rd (written 4096 (block_parts 1 (globalize 0 out))) stale) = [mkInfo 5 5 4096 30000].
+Proof. vm_compute. split; reflexivity. Qed.
+
+(* F10 seen from here: a reinserted entry (original sequence 2) written after sequence 7 makes the block regress;
+   the scan stops there and loses it and everything behind it *)
+Example c07_reinsertion_breaks_the_scan :
+  let ps := [mkPart 0 0 4096 8192 [mkIdx 1 7 4096 100; mkIdx 2 2 8192 100] 2; mkPart 0 0 12288 4096 [mkIdx 3 8 12288 100] 3] in
+  recover_block 65536 4096 (rd (written 4096 ps) (fun _ => None)) = [mkInfo 1 7 4096 100].
 Proof. vm_compute. reflexivity. Qed.
